@@ -33,6 +33,7 @@ PROBES = [
     "noncyclic_offerer",
     "watcher_restarted_under_noncyclic_offerer",
     "stop_start_same_iteration",
+    "clock_past_0xFFFFFF",
 ]
 RUNS = {"quick": 8000, "thorough": 1000000}
 OFFS = [-1e-4, 0.0, 1e-4]
@@ -172,6 +173,10 @@ def gen_infinite(seed, idx):
     p = max([n["timings"]["CYCLIC_OFFER_DELAY"] for n in nodes.values()] + [1.0])
     plan["w0"] = round(D + 2 * p + slack_of(cfg), 6)
     plan["until"] = round(plan["w0"] + p + 0.5, 6)
+    if noncyclic and r.random() < 0.4:
+        # nothing periodic is left in this configuration: let 0xFFFFFF seconds (194 days) pass - "infinite" stays infinite
+        plan["until"] = float(0x1000000 + 1000)
+        plan["far"] = True
     return plan
 
 
@@ -385,6 +390,8 @@ def check(plan, res):
     probes["stalls"] = res.stats.get("stall", 0)
     if plan.get("aligned"):
         probes["disturbance_at_recorded_instant"] = 1
+    if plan.get("far") and res.sim_time > 0xFFFFFF:
+        probes["clock_past_0xFFFFFF"] = 1
     if not cfg["nodes"]["A"]["timings"].get("CYCLIC_OFFER_DELAY", 1):
         probes["noncyclic_offerer"] = 1
         if B.inc >= 2 and A.inc == 1:
